@@ -41,7 +41,11 @@ VariantIds == UNION {{[to |-> WithId(With(BaseV(g, 1), "name", Nlv(<<LR(NilTag, 
 Shared == UNION {{[to |-> With(BaseV(g, 1), "to", ListOf(<<Iri(Base \o "old/1")>>)),
                    from |-> With(With(With(With(BaseV(g, 1), "to", ListOf(<<I1, I2, I1>>)), "cc", ListOf(<<I1, I3, Person1>>)),
                                       "bto", ListOf(<<I2>>)), "bcc", ListOf(<<I3, Iri(Base \o "hidden/1"), I1>>))]} : g \in {"Object", "Actor", "OrderedCollection", "Place"}}
-AllCopy == Shared \cup OneTerm \cup TwoTerms \cup GuardCases \cup VariantIds
+\* an untyped `to` against a `from` with every property of its kind set: the type-specific properties must be merged too
+NoType(v) == [v EXCEPT !.p = Restrict(@, DOMAIN @ \ {"type"})]
+FullOf(g) == (CHOOSE c \in Full(FALSE) : c.lab.g = g).v
+UntypedTo == {[to |-> NoType(BaseV(g, 4)), from |-> FullOf(g)] : g \in CopyTypes}
+AllCopy == UntypedTo \cup Shared \cup OneTerm \cup TwoTerms \cup GuardCases \cup VariantIds
 GenInit == mto = <<>> /\ mfrom = <<>> /\ phase = "gen"
 GenNext == FALSE /\ UNCHANGED vars
 ASSUME ndJsonSerialize("c18_cases.ndjson", SetToSeq(AllCopy))
